@@ -13,3 +13,4 @@ import RSVerif.Properties.C15
 #print axioms RS.table_construction_correct
 #print axioms RS.source_tables_and_integer_code
 #print axioms RS.source_mul_tables
+#print axioms RS.source_table_wiring
